@@ -44,7 +44,7 @@ const (
 )
 
 var (
-	pool       []*regKey          // every signing key the generator may use (registered and unregistered)
+	pool       []*regKey // every signing key the generator may use (registered and unregistered)
 	registry   = map[string]map[string]*regKey{}
 	poolByName = map[string]*regKey{}
 )
@@ -155,7 +155,7 @@ type tokSpec struct {
 	Tamper  string `json:"tamper"`
 	Extra   string `json:"extra"`
 	// request objects only
-	ROClientID string `json:"ro_client_id,omitempty"`
+	ROClientID string         `json:"ro_client_id,omitempty"`
 	ROClaims   map[string]any `json:"ro_claims,omitempty"`
 }
 
